@@ -26,6 +26,14 @@ where
     );
 
     let (limb, scale) = noise_infos.target_limb_and_scale(base2k);
+
+    // The noise lives in one limb: the rest of the selected column is zero, not whatever it held before.
+    for j in 0..res.size() {
+        if j != limb {
+            res.at_mut(res_col, j).fill(0);
+        }
+    }
+
     znx_fill_normal_f64_ref(
         res.at_mut(res_col, limb),
         noise_infos.sigma * scale,
